@@ -286,6 +286,8 @@ func VerifParserConfig(ctx *Context) (RollConfig, bool) {
 
 // VerifGlobalRandState returns the state of the package-level fallback generator.
 func VerifGlobalRandState() []byte {
+	randSourceMu.Lock()
+	defer randSourceMu.Unlock()
 	b, _ := randSource.MarshalBinary()
 	return b
 }
